@@ -24,6 +24,7 @@
 import YtkModel.Generated.Constants
 import YtkProofs.Patch
 import YtkProofs.HeapPatch
+import YtkProofs.HeapPatchAbs
 
 namespace Ytk.C09
 open Ytk.Ptr Ytk.Patch
@@ -406,5 +407,158 @@ theorem heap_copy_noClone_aliases :
     evalH (copyNoClone (some ["a"]) ["c"] pHeap 4).1 4 ["a"] = some 2 := by decide +kernel
 
 end heap
+
+/-! ### Refinement: the heap-level operation abstracts to the value-level one -/
+
+section refine
+open Ytk.Heap
+
+/-- the value-level operation object: the same, with the value node replaced by its abstraction -/
+def absOp (o : HOpObj) (nv : Option Node) : OpObj := ⟨o.op, o.frm, o.path, nv⟩
+
+/-- REFINEMENT (all operations except move).  Let the document at `root` abstract to `d`
+    (`abs`: fuel = heap size), the value node — if the operation object has one — to `nv`, all
+    tokens be plain member names / indices, the location non-root, and let the parent cell of `path`
+    be reached from the root along that path ONLY, not reach itself, and not be contained in the
+    value (`Dest`: tree-shaped documents, a value that is not part of the document — when a
+    container or list object occurs at two places of a document, a write through one place shows
+    at the other, which no value-level tree operation expresses).  Then the heap-level operation
+    has the outcome of the value-level `patchDo`, and the document afterwards abstracts (with
+    some fuel) to the value-level result document.
+    Together with `patch_refines` this is: pointer-level patch = RFC 6902 on the abstraction.
+
+    Partial: `move` (two writes — detach, attach, and the rollback) needs `Dest` for the heap
+    after the detach as well; the full statement is the same with `hop` dropped and
+    `Dest ((doRemoveH f h root).1) root (parent path) [n]` added for the moved node `n`.  The
+    pointer-level facts about move are `heap_move_same_node` and `heap_patch_failure_restores`. -/
+theorem heap_patch_abs_partial (o : HOpObj) (h : Heap) (root : Addr) (d : Node) (nv : Option Node)
+    (hm : h.MapsOk) (hcl : h.Closed) (hroot : root < h.size) (hop : o.op ≠ "move")
+    (hd : abs h root = some d)
+    (hval : (∀ v, o.value = some v → ∃ x, nv = some x ∧ abs h v = some x) ∧ (o.value = none → nv = none))
+    (hpath : ∀ p, o.path = some p → Plain p ∧ p ≠ [] ∧ Dest h root (parent p) o.value.toList)
+    (hfrm : ∀ f, o.frm = some f → Plain f) :
+    ∃ G, absH G (patchDoH o h root).1 root = some (patchDo (absOp o nv) d).1 ∧
+      (patchDoH o h root).2 = (patchDo (absOp o nv) d).2 := by
+  have hm' : ∀ a kvs, Reach h root a → h.get? a = some (.cont kvs) → AMap.Sorted kvs :=
+    fun a kvs _ hg => hm a kvs hg
+  have hd0 : absH h.size h root = some d := hd
+  unfold patchDoH patchDo absOp
+  dsimp only
+  cases hp : o.path with
+  | none => exact ⟨h.size, hd0, rfl⟩
+  | some path =>
+    obtain ⟨hpl, hne, hdest⟩ := hpath path hp
+    dsimp only
+    have hdest0 : Dest h root (parent path) [] :=
+      fun par he => ⟨(hdest par he).1, (hdest par he).2.1, fun v hv => by cases hv⟩
+    by_cases h1 : o.op = "add"
+    · rw [if_pos h1, if_pos h1]
+      cases hv : o.value with
+      | none =>
+        rw [hval.2 hv]
+        exact ⟨h.size, hd0, rfl⟩
+      | some v =>
+        obtain ⟨x, rfl, hx⟩ := hval.1 v hv
+        rw [hv] at hdest
+        have := doAddH_abs hm' hpl hne hd0 hx hdest
+        exact ⟨_, this.1, this.2⟩
+    · rw [if_neg h1, if_neg h1]
+      by_cases h2 : o.op = "remove"
+      · rw [if_pos h2, if_pos h2]
+        have := doRemoveH_abs hm' hpl hne hd0 hdest0
+        exact ⟨_, this.1, this.2⟩
+      · rw [if_neg h2, if_neg h2]
+        by_cases h3 : o.op = "replace"
+        · rw [if_pos h3, if_pos h3]
+          cases hv : o.value with
+          | none =>
+            rw [hval.2 hv]
+            exact ⟨h.size, hd0, rfl⟩
+          | some v =>
+            obtain ⟨x, rfl, hx⟩ := hval.1 v hv
+            rw [hv] at hdest
+            have := doReplaceH_abs hm' hpl hne hd0 hx hdest
+            exact ⟨_, this.1, this.2⟩
+        · rw [if_neg h3, if_neg h3, if_neg hop, if_neg hop]
+          by_cases h5 : o.op = "copy"
+          · rw [if_pos h5, if_pos h5]
+            cases hf : o.frm with
+            | none => exact ⟨h.size, hd0, rfl⟩
+            | some f => exact copyH_abs hm hcl hroot (hfrm f hf) hpl hne hd hdest0
+          · rw [if_neg h5, if_neg h5]
+            by_cases h6 : o.op = "test"
+            · rw [if_pos h6, if_pos h6]
+              cases hv : o.value with
+              | none =>
+                rw [hval.2 hv]
+                exact ⟨h.size, hd0, rfl⟩
+              | some v =>
+                obtain ⟨x, rfl, hx⟩ := hval.1 v hv
+                obtain ⟨t1, t2, t3⟩ := doTestH_abs (path := path) hpl hd hx
+                exact ⟨h.size, by rw [t1, t3]; exact hd0, t2⟩
+            · rw [if_neg h6, if_neg h6]
+              exact ⟨h.size, hd0, rfl⟩
+
+/-- non-vacuity: on `pHeap` (a tree as far as containers and lists go) the hypotheses hold for
+    `add /b/y <leaf #1>`, and both sides give the same document -/
+theorem nonvacuous_heap_patch_abs :
+    (patchDoH ⟨"add", none, some ["b", "y"], some 1⟩ pHeap 4).2 = .ok () ∧
+    abs (patchDoH ⟨"add", none, some ["b", "y"], some 1⟩ pHeap 4).1 4 =
+      some (patchDo ⟨"add", none, some ["b", "y"], some (.leaf ⟨"int", "1"⟩)⟩
+        (.cont [("a", .list [.leaf ⟨"int", "1"⟩, .leaf Scalar.null]), ("b", .cont [("x", .leaf ⟨"int", "1"⟩)])])).1 ∧
+    abs pHeap 4 = some (.cont [("a", .list [.leaf ⟨"int", "1"⟩, .leaf Scalar.null]),
+      ("b", .cont [("x", .leaf ⟨"int", "1"⟩)])]) := by decide +kernel
+
+/-- a set of addresses that is closed under the child edge confines reachability (decidable check
+    for concrete heaps) -/
+theorem not_reach_of_closed {h : Heap} (S : List Addr)
+    (hS : (S.all fun a => match h.get? a with
+      | some c => c.kids.all (fun k => S.contains k)
+      | none => true) = true)
+    {x par : Addr} (hx : x ∈ S) (hp : par ∉ S) : ¬ Reach h x par := by
+  intro hr
+  refine hp (Reach.closed_set (fun a => a ∈ S) ?_ hr hx)
+  intro a c ha hg k hk
+  have h1 := List.all_eq_true.mp hS a ha
+  simp only [hg] at h1
+  have h2 := List.all_eq_true.mp h1 k hk
+  simpa using h2
+
+/-- … and the hypotheses of `heap_patch_abs_partial` hold there: `Dest` for the parent /b of the
+    location /b/y and the value node #1 -/
+theorem nonvacuous_heap_patch_abs_hyps :
+    pHeap.MapsOk ∧ pHeap.Closed ∧ Plain ["b", "y"] ∧ Dest pHeap 4 (parent ["b", "y"]) [1] := by
+  refine ⟨mapsOk_of_all (by decide +kernel), closed_of_all (by decide +kernel), ?_, ?_⟩
+  · intro t ht
+    simp only [List.mem_cons, List.mem_nil_iff, or_false] at ht
+    rcases ht with rfl | rfl <;> decide +kernel
+  · intro par he
+    have hpar : par = 3 := by
+      have : evalH pHeap 4 (parent ["b", "y"]) = some 3 := by decide +kernel
+      rw [this] at he; exact (Option.some.inj he).symm
+    subst hpar
+    have hleaf : ¬ Reach pHeap 1 3 := not_reach_of_closed [1] (by decide +kernel) (by decide) (by decide)
+    refine ⟨?_, ?_, ?_⟩
+    · show SolePath pHeap 4 ["b"] 3
+      refine ⟨by decide, 3, by decide +kernel, rfl, ?_⟩
+      show ∀ p ∈ [("a", 2), ("b", 3)], p.1 ≠ "b" → ¬ Reach pHeap p.2 3
+      intro p hp hne
+      simp only [List.mem_cons, List.mem_nil_iff, or_false] at hp
+      rcases hp with rfl | rfl
+      · exact not_reach_of_closed [2, 1, 0] (by decide +kernel) (by decide) (by decide)
+      · exact absurd rfl hne
+    · intro c hg k hk
+      have : c = .cont [("x", 1)] := by
+        have h3 : pHeap.get? 3 = some (.cont [("x", 1)]) := by decide +kernel
+        rw [h3] at hg; exact (Option.some.inj hg).symm
+      subst this
+      simp only [Cell.kids, List.map_cons, List.map_nil, List.mem_singleton] at hk
+      subst hk
+      exact hleaf
+    · intro v hv
+      cases List.mem_singleton.mp hv
+      exact hleaf
+
+end refine
 
 end Ytk.C09
